@@ -591,6 +591,82 @@ class Prov:
         return None
 
 
+def _stored_operand(ctx, pv, cfg, uname, node, ops, lab):
+    """The 'stored' operand of a combination is the stored attribute itself:
+    (i) `attrs.get(name)` has no default other than None – a default would
+    silently stand in for a missing attribute (block-only summary for files
+    written without summaries); (ii) the combination is evaluated only where
+    the attribute was found (`is not None` / membership test)."""
+    snodes = [f[2] for o in ops for f in o if f[0] == "stored"]
+    for sn in snodes:
+        dflt = None
+        if isinstance(sn, ast.Call):
+            dflt = sn.args[1] if len(sn.args) > 1 else next(
+                (k.value for k in sn.keywords if k.arg == "default"), None)
+        ok = dflt is None or (isinstance(dflt, ast.Constant)
+                              and dflt.value is None)
+        ctx.ob("R20.1", ok, f"the stored {uname} enters the combination as "
+               f"it is (no substitute)" if ok else
+               f"`{short(sn, 50)}`: when no {uname} is stored the default "
+               f"`{short(dflt, 20)}` takes its place – the summary of a "
+               f"dataset without stored attributes covers the new block "
+               f"only", node=sn, label=f"{uname}: stored operand has no "
+                                       f"substitute")
+    # names / expressions that denote the stored value
+    subjects = {txt(sn) for sn in snodes}
+    for nm, defs in pv.defs.items():
+        if any(d.value in snodes for d in defs):
+            subjects.add(nm)
+    keytxts = set()
+    for sn in snodes:
+        if isinstance(sn, ast.Call) and sn.args:
+            keytxts.add(txt(sn.args[0]))
+        elif isinstance(sn, ast.Subscript):
+            keytxts.add(txt(sn.slice))
+
+    def found_fact(e, truth):
+        if isinstance(e, ast.NamedExpr):
+            return False
+        if isinstance(e, ast.Compare) and len(e.ops) == 1:
+            left = e.left.target if isinstance(
+                e.left, ast.NamedExpr) else e.left
+            if txt(left) in subjects and txt(e.comparators[0]) == "None":
+                return (isinstance(e.ops[0], ast.IsNot) and truth) or (
+                    isinstance(e.ops[0], ast.Is) and not truth)
+            if txt(e.left) in keytxts and txt(
+                    e.comparators[0]) == f"{pv.D}.attrs":
+                return (isinstance(e.ops[0], ast.In) and truth) or (
+                    isinstance(e.ops[0], ast.NotIn) and not truth)
+        return False
+    # expression level (conditional expression around the combination)
+    guarded = False
+    child = node
+    for a in ancestors(node):
+        if isinstance(a, ast.stmt):
+            break
+        if isinstance(a, ast.IfExp):
+            in_body = any(child is x for x in ast.walk(a.body))
+            from ..cfg import branch_facts as _bf
+            if any(found_fact(e, t) for e, t in _bf(a.test, in_body)):
+                guarded = True
+        child = a
+    if not guarded:
+        # statement level; the value may be computed in an earlier statement
+        stmts = [_stmt_of(node)]
+        for nm, defs in pv.defs.items():
+            stmts += [d for d in defs if d.value is node
+                      and isinstance(d, ast.stmt)]
+        guarded = all(guarded_by(cfg, i, found_fact)
+                      for st in stmts for i in cfg.ids_of(st))
+    ctx.ob("R20.1", guarded, f"stored and new {uname} are combined only "
+           f"where a stored value was found" if guarded else
+           f"the combination `{short(node, 50)}` is not guarded by a test "
+           f"that the {uname} attribute exists: for a dataset without "
+           f"stored summaries it fails or summarises the new block only",
+           node=node, label=f"{uname}: combination only with a stored "
+                            f"value")
+
+
 def r201(ctx, repo):
     wn = wfunc(repo, WR, "RTDCWriter.write_ndarray")
     unres = []
@@ -665,6 +741,7 @@ def r201(ctx, repo):
                         f"not recognised")
                 inner = [f[1] for o in ops for f in o if f[0] == "block"][0]
                 table.setdefault(uname, set()).add(inner)
+                _stored_operand(ctx, pv, cfg, uname, node, ops, lab)
                 if uname == "mean":
                     ctx.ob("R20.1", False, "partial means cannot be combined "
                            "by a reducer without their counts", node=node,
@@ -1681,6 +1758,165 @@ def r204(ctx, repo):
                key=f"{HE}::{cls.name}::no parent summaries")
 
 
+def _param_deps(func):
+    """{local name: set of named parameters it depends on} – flow-insensitive
+    closure over assignments, loop targets and with-items.  `self` and the
+    catch-alls *args / **kwargs are not tracked (the array protocol never
+    fills them)."""
+    a = func.args
+    named = [x.arg for x in a.posonlyargs + a.args + a.kwonlyargs]
+    named = [x for x in named if x not in ("self", "cls")]
+    deps = {p_: {p_} for p_ in named}
+
+    def of(expr):
+        out = set()
+        for n in ast.walk(expr):
+            if isinstance(n, ast.Name) and n.id in deps:
+                out |= deps[n.id]
+        return out
+    changed = True
+    rounds = 0
+    while changed and rounds < 20:
+        changed = False
+        rounds += 1
+        for n in walk(func):
+            pairs = []
+            if isinstance(n, ast.Assign):
+                pairs = [(t, n.value) for t in n.targets]
+            elif isinstance(n, (ast.AugAssign, ast.AnnAssign)) \
+                    and n.value is not None:
+                pairs = [(n.target, n.value)]
+            elif isinstance(n, (ast.For, ast.comprehension)):
+                pairs = [(n.target, n.iter)]
+            elif isinstance(n, ast.NamedExpr):
+                pairs = [(n.target, n.value)]
+            elif isinstance(n, ast.withitem) and n.optional_vars is not None:
+                pairs = [(n.optional_vars, n.context_expr)]
+            for tgt, val in pairs:
+                d = of(val)
+                if not d:
+                    continue
+                for x in ast.walk(tgt):
+                    if isinstance(x, ast.Name) and isinstance(
+                            x.ctx, ast.Store):
+                        if not d <= deps.get(x.id, set()):
+                            deps[x.id] = deps.get(x.id, set()) | d
+                            changed = True
+    return deps, of
+
+
+KNOWN_SUMMARY_CLASSES = {
+    (EV, "H5ScalarEvent"), (HE, "ChildScalar"),
+}
+
+
+def r205(ctx, repo):
+    """Every feature wrapper in dclab/rtdc_dataset that offers min / max /
+    mean computes them from exactly the values it yields: either through the
+    reviewed `_fetch_ufunc_attr` protocol (R20.2 / R20.3) or as the
+    NaN-ignoring reducer over `self.__array__()` / `self[:]` / the very
+    expression its `__array__` caches or returns – no other index, no
+    unique / sort / de-duplication in between."""
+    found = []
+    for rel in repo.files("dclab/rtdc_dataset/"):
+        src = repo.src(rel)
+        if not any(f"def {u}(" in src for u in NAMES):
+            continue
+        for cls in [n for n in ast.walk(repo.tree(rel))
+                    if isinstance(n, ast.ClassDef)]:
+            meths = {f.name: f for f in cls.body
+                     if isinstance(f, ast.FunctionDef)}
+            if set(NAMES) & set(meths):
+                found.append((rel, cls, meths))
+    if not found:
+        raise AnalysisError("no class with summary methods found")
+    for rel, cls, meths in found:
+        known = (rel, cls.name) in KNOWN_SUMMARY_CLASSES
+        own = {"self.__array__()", "self[:]", "np.asarray(self)",
+               "np.array(self)"}
+        for nm in ("__array__", "__getitem__"):
+            f = meths.get(nm)
+            if f is None:
+                continue
+            for n in walk(f):
+                if isinstance(n, ast.Assign) and any(
+                        is_self_attr(t) for t in n.targets):
+                    own.add(txt(n.value))
+                if isinstance(n, ast.Return) and nm == "__array__" \
+                        and n.value is not None:
+                    own.add(txt(n.value))
+        # the values the summaries are compared with are the memoised
+        # ones: the memo must not depend on the first caller's request
+        for nm in ("__array__", "__getitem__"):
+            f = meths.get(nm)
+            if f is None:
+                continue
+            deps, of = _param_deps(f)
+            for n in walk(f):
+                if isinstance(n, ast.Assign):
+                    for t in n.targets:
+                        if is_self_attr(t):
+                            leak = sorted(of(n.value))
+                            ctx.ob("R20.4", not leak,
+                                   f"{cls.name}: the data memo self.{t.attr}"
+                                   f" does not depend on the request"
+                                   if not leak else
+                                   f"{cls.name}.{nm} memoises data that "
+                                   f"depend on the per-call argument(s) "
+                                   f"{leak}: later reads (and the values "
+                                   f"min/max/mean are compared with) carry "
+                                   f"the first caller's dtype while the "
+                                   f"stored summaries do not",
+                                   node=n,
+                                   key=f"{rel}::{cls.name}.{nm}::memo "
+                                       f"self.{t.attr} independent of the "
+                                       f"request")
+        for u in NAMES:
+            f = meths.get(u)
+            key = f"{rel}::{cls.name}.{u}::summary over the yielded values"
+            if f is None:
+                ctx.ob("R20.4", False, f"{cls.name} offers "
+                       f"{sorted(set(NAMES) & set(meths))} but no {u}()",
+                       node=cls, key=key)
+                continue
+            rets = [n for n in walk(f) if isinstance(n, ast.Return)]
+            if len(rets) != 1 or rets[0].value is None:
+                raise AnalysisError(f"{cls.name}.{u}: return form")
+            v = rets[0].value
+            calls = [c for c in ast.walk(v) if isinstance(c, ast.Call)
+                     and last_attr(c) == "_fetch_ufunc_attr"]
+            if calls or (isinstance(v, ast.Call) and isinstance(
+                    v.func, ast.Attribute) and is_self_attr(v.func)
+                    and v.func.attr.startswith("_")):
+                # goes through the cache protocol (or a private helper of
+                # it): decided by R20.2 / R20.3 for the reviewed classes
+                if not known:
+                    raise AnalysisError(
+                        f"{rel}::{cls.name} has its own summary cache "
+                        f"protocol – not reviewed")
+                ctx.ob("R20.4", True, f"{cls.name}.{u} uses the reviewed "
+                       f"cache protocol", node=f, key=key, nontrivial=False)
+                continue
+            if not (isinstance(v, ast.Call) and len(v.args) >= 1):
+                raise AnalysisError(f"{cls.name}.{u}: `{short(v, 40)}` not "
+                                    f"recognised")
+            red = _np(dotted(v.func))
+            arg = v.args[0]
+            dedup = [c for c in ast.walk(arg) if isinstance(c, ast.Call)
+                     and (last_attr(c) or "") in ("unique", "sort", "sorted",
+                                                  "set", "argsort")]
+            same = txt(arg) in own
+            ok = same and not dedup and red == NAN_REDUCER[u]
+            ctx.ob("R20.4", ok,
+                   f"{cls.name}.{u} = {red} over the values the object "
+                   f"yields" if ok else
+                   f"{cls.name}.{u} = `{short(v, 60)}` is not "
+                   f"{NAN_REDUCER[u]} over the values the object yields "
+                   f"(its data are {sorted(own - {'self[:]', 'np.asarray(self)', 'np.array(self)'})[:3]}): "
+                   f"another index / de-duplication changes e.g. the mean",
+                   node=rets[0], key=key)
+
+
 def run(ctx):
     repo = ctx.repo
     ctx.rule("R20.1", "stored min/max/mean are NaN-ignoring reductions of "
@@ -1696,6 +1932,7 @@ def run(ctx):
     cstores = r202(ctx, repo, wtable, wn)
     r203(ctx, repo, cstores)
     r204(ctx, repo)
+    r205(ctx, repo)
 
 
 
@@ -1885,6 +2122,53 @@ def _forwarding_tuple_with_mean(src):
     return _forwarding_tuple(src, extra='    "mean",\n')
 
 
+def _proxy_summaries(src, index="self.basinmap"):
+    """BasinProxyFeature gets its own min/max/mean"""
+    head = "    def __len__(self):\n        return len(self.basinmap)\n"
+    a = src.find("class BasinProxyFeature")
+    b = src.find(head, a)
+    if a < 0 or b < 0:
+        return src
+    b += len(head)
+    add = ""
+    for u in ("max", "mean", "min"):
+        add += (f"\n    def {u}(self, *args, **kwargs):\n"
+                f"        return np.nan{u}(self.feat_obj[:][{index}])\n")
+    return src[:b] + add + src[b:]
+
+
+def _proxy_summaries_unique(src):
+    return _proxy_summaries(src, index="np.unique(self.basinmap)")
+
+
+def _proxy_summaries_own_array(src):
+    head = "    def __len__(self):\n        return len(self.basinmap)\n"
+    a = src.find("class BasinProxyFeature")
+    b = src.find(head, a)
+    if a < 0 or b < 0:
+        return src
+    b += len(head)
+    add = ""
+    for u in ("max", "mean", "min"):
+        add += (f"\n    def {u}(self, *args, **kwargs):\n"
+                f"        return np.nan{u}(self.__array__())\n")
+    return src[:b] + add + src[b:]
+
+
+def _extrema_walrus(src):
+    first = "                val_a = dset.attrs.get(uname, None)\n"
+    last = "                dset.attrs[uname] = val\n"
+    a = src.find(first)
+    b = src.find(last, a)
+    if a < 0 or b < 0:
+        return src
+    return src[:a] + (
+        "                dset.attrs[uname] = (\n"
+        "                    ufunc([val_a, ufunc(dset[offset:])])\n"
+        "                    if (val_a := dset.attrs.get(uname)) is not None\n"
+        "                    else ufunc(dset))\n") + src[b + len(last):]
+
+
 MUTANTS = [
     # R20.1
     ("writer: max of a block with np.max", WR,
@@ -1983,6 +2267,20 @@ MUTANTS = [
     # R20.4
     ("BasinProxyFeature forwards the summaries", FB,
      _proxy_forwards_summaries, "R20.4"),
+    ("BasinProxyFeature summaries over the de-duplicated mapping", FB,
+     _proxy_summaries_unique, "R20.4"),
+    ("H5ScalarEvent memo loaded with the caller's dtype", EV,
+     ("self._array = np.asarray(self.h5ds, *args, **kwargs)",
+      "self._array = np.asarray(self.h5ds, dtype=dtype, *args, **kwargs)"),
+     "R20.4"),
+    ("stored extremum falls back to the new block", WR,
+     ("val_a = dset.attrs.get(uname, None)\n"
+      "                if val_a is not None:\n",
+      "val_a = dset.attrs.get(uname, ufunc(dset[offset:]))\n"
+      "                if offset:\n"), "R20.1"),
+    ("combination guarded by the offset only", WR,
+     ("                if val_a is not None:\n",
+      "                if offset:\n"), "R20.1"),
     ("module-level forwarding tuple lists 'mean'", FB,
      _forwarding_tuple_with_mean, "R20.4"),
     ("ChildScalar.max taken from the parent feature", HE,
@@ -2068,17 +2366,7 @@ TWINS = [
      ("        self._events.clear()\n", "        self._events = {}\n")),
     # round 2, batch 2
     ("extrema update as one conditional expression with a walrus", WR,
-     ("                val_a = dset.attrs.get(uname, None)\n"
-      "                if val_a is not None:\n"
-      "                    val_b = ufunc(data)\n"
-      "                    val = ufunc([val_a, val_b])\n"
-      "                else:\n"
-      "                    val = ufunc(dset)\n"
-      "                dset.attrs[uname] = val\n",
-      "                dset.attrs[uname] = (\n"
-      "                    ufunc([val_a, ufunc(data)])\n"
-      "                    if (val_a := dset.attrs.get(uname)) is not None\n"
-      "                    else ufunc(dset))\n")),
+     _extrema_walrus),
     ("copier table as a dict iterated with .items()", CP,
      ('                    for ufunc, attr in [(np.nanmin, "min"),\n'
       '                                        (np.nanmax, "max"),\n'
@@ -2109,7 +2397,15 @@ TWINS = [
      EV, _summary_table_helper),
     ("forwarding list hoisted into a module-level tuple", FB,
      _forwarding_tuple),
+    ("BasinProxyFeature summaries over its own mapped array", FB,
+     _proxy_summaries_own_array),
+    ("BasinProxyFeature summaries over feat_obj[:][basinmap]", FB,
+     _proxy_summaries),
+    ("stored extremum found by membership test", WR,
+     ("                if val_a is not None:\n",
+      "                if uname in dset.attrs:\n")),
 ]
 
 # mutants that re-introduce the repaired defects (apply to the fixed tree)
-MUTANTS = list(MUTANTS) + list(MUTANTS_AFTER_FIX)
+MUTANTS = list(MUTANTS) + list(MUTANTS_AFTER_FIX) + list(
+    MUTANTS_AFTER_FIX_F20B)
